@@ -2,7 +2,7 @@
    over histories of operations.  Definitions only. *)
 From Coq Require Import Floats.
 From EF Require Import Model.Base Gen.Tables Model.Lexer Model.Ast Model.Parser Model.Code Model.Value
-                       Model.Env Model.Reflect Model.Builtins Model.Compiler Model.Optimizer Model.VM.
+                       Model.Env Model.Reflect Model.Builtins Model.Compiler Model.Optimizer Model.VM Spec.Moded.
 Open Scope N_scope.
 
 Record machine := mkMachine {
@@ -62,6 +62,8 @@ Definition prepare (e : eval) (optimize : bool) : prep * eval :=
       | CompNeed => (PrepNeed, e)
       | CompFuel => (PrepFuel, e)
       | CompOk pc =>
+          (* constructs that leave no value may only be used as statements (evalfilter.go: checkModes) *)
+          if negb (well_moded ast) then (PrepReject, e) else
           (* NoOptimize also removes the switch an earlier Prepare may have left in the variables *)
           let env1 := if optimize then env_set (eenv e) optimize_var (VBool true) else env_unset (eenv e) optimize_var in
           let do_opt := match env_get env1 optimize_var with Some _ => true | None => false end in
